@@ -36,3 +36,13 @@ META["C07"] = dict(
     level_note=("Trusted: the cleanliness definition (conservative: a foreign packet anywhere before/after in the wrong direction marks a frame unclean, "
                 "so obligations are never invented), the C03-verified clean decode used as reference output."),
 )
+
+META["C08"] = dict(
+    design_ref="DESIGN.md section 4, C08",
+    technique="property-based testing (rapid) of generated hostile packet histories with history oracles (output stability by snapshot compare, size caps, retained heap after GC); native go fuzzing of every decoder in the thorough tier",
+    level_text=("Exploration: generated packet programs (format-aware fragments, raw bytes, mutated valid frames) per decoder with three history "
+                "oracles no unit test states - earlier outputs stay byte-identical, outputs respect the documented maxima, retained heap stays "
+                "under a fixed per-format bound after tens of thousands of packets. Memory is a measured quantity with a 3 MiB slack."),
+    level_note=("Trusted: runtime.MemStats after GC as the retained-memory measure; per-format bounds derived from the decoders' documented caps; "
+                "one open known finding (tiny fragments) is excluded by construction for the nine decoders it affects."),
+)
